@@ -55,3 +55,13 @@ Theorem C02_oracle_accepts_model_traces : forall es rf0 n w0, (1 <= rf0)%nat -> 
 Proof. exact c02_oracle_model. Qed.
 
 Print Assumptions C02_oracle_accepts_model_traces.
+
+(** the same for histories with concurrent pairs ([Two e1 e2]: e2 issued while e1 is in flight) *)
+From Jiva Require Import Ctl.Model Ctl.Corr Ctl.Oracles Ctl.Proofs Ctl.OracleProofs2 Ctl.OracleProofsX Ctl.OracleProofsX2.
+
+Theorem C02_oracle_accepts_model_traces_with_pairs : forall xs rf0 n w0, (1 <= rf0)%nat -> forallb xev_wf xs = true ->
+  forallb (xev_addrs_lt n) xs = true ->
+  walk (lift (c02_step rf0) nopair) 0 (obs0 rf0 n w0) xs (trace n (init rf0 w0) xs) = None.
+Proof. exact c02_oracle_model_x. Qed.
+
+Print Assumptions C02_oracle_accepts_model_traces_with_pairs.
